@@ -50,6 +50,31 @@ CHECKS.update({
             "leads to exactly the tree of the fault-free history."),
 })
 
+CHECKS.update({
+    "C09": ("exploration", "3.C09",
+            "exhaustive identifier enumeration in-process against serde_derive's own case.rs + call-site expansion checks + end-to-end "
+            "value monitor on crates with unconventional identifiers",
+            "Every identifier up to the length bound over a mixed alphabet is pushed through the routine the derive calls for fields and for "
+            "variants and compared with serde_derive's RenameRule (its source file, included verbatim); the four places a rule can be written "
+            "are checked on real expansions; generated crates with unconventional member names are compiled and their bindings compared with "
+            "real serde_json output."),
+    "C10": ("exploration", "3.C10",
+            "variant-group (metamorphic) monitor over in-process expansions in four feature builds of the macro crate",
+            "Groups of spellings that must be indistinguishable (ts vs serde, ts over serde, list shapes, unsupported keys inserted at every "
+            "position) are expanded by the real derive and compared after canonicalising hash-order dependent parts; with serde-compat off "
+            "serde-only members must equal the attribute-free item. Needs no expected output, so it covers every supported key at every level."),
+    "C12": ("exploration", "3.C12",
+            "table-driven value monitor for the built-in impls (serde_json output vs declared type, witnesses vs Deserialize, dependencies)",
+            "A fixed table of ~200 library types (std, arrays of every length, tuples of every arity, maps over every key type, wrappers, "
+            "feature-gated crates, compositions) with representative values: membership of serde's output in name()/inline(), "
+            "deserialization of the declared type's inhabitants, documented keyword per kind, and type arguments reported as dependencies."),
+    "C16": ("exploration", "3.C16",
+            "grammar-based derive fuzzing in-process under catch_unwind with an independent incompatibility table + rustc compile batches",
+            "Tens of thousands (thorough: millions) of generated items with random attribute subsets are expanded by the real derive inside "
+            "the proc-macro crate's test binary; a panic or an accepted documented-incompatible combination is a violation; accepted items "
+            "are compiled by rustc through the real #[derive(TS)], `optional` on non-Option must hit the IsOption diagnostic."),
+})
+
 PENDING = {}
 
 
